@@ -5,6 +5,7 @@ import (
 
 	"github.com/berquerant/crd/op"
 	vf "github.com/berquerant/crd/zz_verif"
+	"github.com/berquerant/crd/zz_verif/spec"
 )
 
 // VerifC09MainExit: when the command fails, main exits with a non-zero status.
@@ -267,5 +268,95 @@ func VerifC12IOPaths() {
 		vf.Assert("something-printed-on-success", ref != "")
 		vf.Reach("printed")
 	}
+	vf.Reach("end")
+}
+
+type verifAbsEvent struct {
+	tick   uint32
+	status byte
+	meta   byte
+	data   string
+}
+
+func verifAbsEvents(f *spec.SMFFile) (merged []verifAbsEvent, ends []uint32) {
+	for _, evs := range f.Tracks {
+		var abs uint32
+		for _, ev := range evs {
+			abs += ev.Delta
+			if ev.Status == 0xFF && ev.MetaType == 0x2F {
+				ends = append(ends, abs)
+				continue
+			}
+			merged = append(merged, verifAbsEvent{tick: abs, status: ev.Status, meta: ev.MetaType, data: string(ev.Data)})
+		}
+	}
+	return
+}
+
+func verifCountEvent(xs []verifAbsEvent, x verifAbsEvent) int {
+	n := 0
+	for _, y := range xs {
+		if y == x {
+			n++
+		}
+	}
+	return n
+}
+
+// VerifC08WriteCmd: `crd write --track N` end to end on whole documents: the bytes are a
+// well-formed SMF with N tracks; merged over the tracks the events and their absolute ticks
+// are those of --track 1; every track ends at the total duration (trailing rests included);
+// tempo, time and key signature sit at tick 0 of the first track.
+func VerifC08WriteCmd() {
+	in, out := vf.TempPath("write-in.yml"), vf.TempPath("write-out.mid")
+	verifReset(in, out)
+	defer verifReset(in, out)
+	doc := []string{
+		verifDoc("m7"),
+		"- values: [\"1/2\"]\n- chord:\n    degree: \"1\"\n    name: \"9\"\n  values: [\"1\", \"1/3\"]\n  meta:\n    txt: héllo\n- chord:\n    degree: \"4\"\n    name: sus4\n  values: [\"2\"]\n- values: [\"3\"]\n- values: [\"1/4\"]\n",
+	}[vf.NondetIntRange("doc", 0, 1)]
+	total := []uint32{960 + 480 + 1920 + 720, 480 + 960 + 320 + 1920 + 2880 + 240}[map[bool]int{true: 0, false: 1}[doc == verifDoc("m7")]]
+	os.WriteFile(in, []byte(doc), 0o644)
+	n := vf.NondetIntRange("tracks", 1, vf.Param("C08.cmdTracks", 4))
+	write := func(tracks int) *spec.SMFFile {
+		os.Remove(out)
+		vf.Assert("flags-parse", writeCmd.ParseFlags([]string{"--output", out, "--track", []string{"0", "1", "2", "3", "4", "5", "6", "7", "8"}[tracks]}) == nil)
+		err := writeCmd.RunE(writeCmd, []string{in})
+		vf.Assert("write-succeeds", err == nil)
+		b, rerr := os.ReadFile(out)
+		vf.Assert("file-written", rerr == nil && len(b) > 0)
+		f, why := spec.ParseSMF(b)
+		vf.Assert("well-formed-smf", f != nil && why == "")
+		return f
+	}
+	one := write(1)
+	many := write(n)
+	if one == nil || many == nil {
+		return
+	}
+	vf.Assert("format-word", many.Format == vf.Ite(n == 1, 0, 1) && one.Format == 0)
+	vf.Assert("track-count", many.NTracks == n && len(many.Tracks) == n)
+	ref, refEnds := verifAbsEvents(one)
+	got, ends := verifAbsEvents(many)
+	vf.Assert("same-number-of-events-whatever-the-track-count", len(ref) == len(got))
+	for _, x := range ref {
+		vf.Assert("same-events-at-the-same-ticks-whatever-the-track-count", verifCountEvent(ref, x) == verifCountEvent(got, x))
+	}
+	vf.Assert("one-end-of-track-per-track", len(ends) == n && len(refEnds) == 1)
+	for _, e := range append(ends, refEnds...) {
+		vf.Assert("every-track-ends-at-the-total-duration", e == total)
+	}
+	// tick 0 of track 0 states tempo, time signature and key signature
+	var tempo, meter, keysig bool
+	var abs uint32
+	for _, ev := range many.Tracks[0] {
+		abs += ev.Delta
+		if abs == 0 && ev.Status == 0xFF {
+			tempo = tempo || ev.MetaType == 0x51
+			meter = meter || ev.MetaType == 0x58
+			keysig = keysig || ev.MetaType == 0x59
+		}
+	}
+	vf.Assert("tempo-meter-key-at-tick-0-of-first-track", tempo && meter && keysig)
 	vf.Reach("end")
 }
